@@ -106,6 +106,9 @@ structure CF where
   unit : Option String
   kind : Kind
 
+/-- length of the last axis of a shape / last entry of an index (0 for the empty list) -/
+def lastAx (s : List Nat) : Nat := s.getLastD 0
+
 /-! ## NumPy broadcasting (shapes are right-aligned: work on reversed lists) -/
 
 def bdim (x y : Nat) : Option Nat :=
@@ -146,7 +149,7 @@ def einsumDot (a b : NDA GQ) : M (NDA GQ) :=
     match bshape a.shape b.shape with
     | none => .error .value
     | some s =>
-      .ok ⟨s.dropLast, fun idx => sumTo (s.getLastD 0) fun c =>
+      .ok ⟨s.dropLast, fun idx => sumTo (lastAx s) fun c =>
         GQ.mul (a.get (bproj a.shape (idx ++ [c]))) (b.get (bproj b.shape (idx ++ [c])))⟩
 
 /-- component `c` of the vector product of `x` and `y` -/
@@ -157,13 +160,13 @@ def crossAt (x y : Nat → GQ) (c : Nat) : GQ :=
 
 /-- `np.cross(a, b)` (NumPy ≥ 2.5: both last axes must have length 3) -/
 def npCross (a b : NDA GQ) : M (NDA GQ) :=
-  if a.shape.getLastD 0 ≠ 3 ∨ b.shape.getLastD 0 ≠ 3 then .error .value
+  if lastAx a.shape ≠ 3 ∨ lastAx b.shape ≠ 3 then .error .value
   else
     match bshape a.shape b.shape with
     | none => .error .value
     | some s =>
       .ok ⟨s, fun idx => crossAt (fun c => a.get (bproj a.shape (idx.dropLast ++ [c])))
-        (fun c => b.get (bproj b.shape (idx.dropLast ++ [c]))) (idx.getLastD 0)⟩
+        (fun c => b.get (bproj b.shape (idx.dropLast ++ [c]))) (lastAx idx)⟩
 
 /-- `a[..., c]` -/
 def takeLast (a : NDA GQ) (c : Nat) : NDA GQ := ⟨a.shape.dropLast, fun idx => a.get (idx ++ [c])⟩
@@ -174,7 +177,7 @@ def npStack (parts : List (NDA GQ)) : M (NDA GQ) :=
   | [] => .error .value
   | p :: ps =>
     if ps.all (fun q => decide (q.shape = p.shape)) then
-      .ok ⟨p.shape ++ [parts.length], fun idx => ((p :: ps).getD (idx.getLastD 0) p).get idx.dropLast⟩
+      .ok ⟨p.shape ++ [parts.length], fun idx => ((p :: ps).getD (lastAx idx) p).get idx.dropLast⟩
     else .error .value
 
 /-- `np.full(T, v)` / `np.broadcast_to(v, T)` -/
@@ -197,7 +200,7 @@ def asArray (mesh : Mesh) (nvdim : Nat) : Value → M (NDA GQ × Bool)
   | .arr v =>
     if nvdim = 1 ∧ v.shape = mesh.n then .ok (⟨mesh.n ++ [1], fun idx => v.get idx.dropLast⟩, true)
     else if v.shape = [] then .error .index
-    else if v.shape.getLastD 0 ≠ nvdim then .error .value
+    else if lastAx v.shape ≠ nvdim then .error .value
     else
       match npFull (mesh.n ++ [nvdim]) v with
       | .error e => .error e
@@ -209,7 +212,7 @@ def validSet (mesh : Mesh) : Option (NDA Bool) → M (NDA Bool)
   | some v =>
     if v.shape = mesh.n then .ok v
     else if v.shape = [] then .error .index
-    else if v.shape.getLastD 0 ≠ 1 then .error .value
+    else if lastAx v.shape ≠ 1 then .error .value
     else
       match npFull (mesh.n ++ [1]) v with
       | .error e => .error e
@@ -327,8 +330,8 @@ def applyOperator (fn : GQ → GQ → GQ) (pw : Bool) (self : CF) : Val → M CF
         match npBin fn self.data o.data with
         | .error e => .error e
         | .ok res =>
-          mkField self.mesh (res.shape.getLastD 0) (.arr res) (self.kind.join o.kind)
-            (fixVdims (if self.nvdim = 1 ∧ 1 < o.nvdim then o.vdims else self.vdims) (res.shape.getLastD 0))
+          mkField self.mesh (lastAx res.shape) (.arr res) (self.kind.join o.kind)
+            (fixVdims (if self.nvdim = 1 ∧ 1 < o.nvdim then o.vdims else self.vdims) (lastAx res.shape))
             (some (NDA.zipWith (fun x y => x && y) self.valid o.valid))
             (some (if self.nvdim = 1 ∧ 1 < o.nvdim then o.vmap else self.vmap)) none
   | .raw (.num z k _) =>
@@ -337,8 +340,8 @@ def applyOperator (fn : GQ → GQ → GQ) (pw : Bool) (self : CF) : Val → M CF
       match npBin fn self.data (scalarArr z) with
       | .error e => .error e
       | .ok res =>
-        mkField self.mesh (res.shape.getLastD 0) (.arr res) (self.kind.join k)
-          (fixVdims self.vdims (res.shape.getLastD 0)) (some self.valid) (some self.vmap) none
+        mkField self.mesh (lastAx res.shape) (.arr res) (self.kind.join k)
+          (fixVdims self.vdims (lastAx res.shape)) (some self.valid) (some self.vmap) none
   | .raw (.arr a k _) =>
     if a.shape = [] then .error .type
     else if ¬ (self.data.shape = a.shape ∨ self.nvdim = a.shape.headD 0 ∨ self.nvdim = 1) then .error .type
@@ -347,8 +350,8 @@ def applyOperator (fn : GQ → GQ → GQ) (pw : Bool) (self : CF) : Val → M CF
       match npBin fn self.data a with
       | .error e => .error e
       | .ok res =>
-        mkField self.mesh (res.shape.getLastD 0) (.arr res) (self.kind.join k)
-          (fixVdims self.vdims (res.shape.getLastD 0)) (some self.valid) (some self.vmap) none
+        mkField self.mesh (lastAx res.shape) (.arr res) (self.kind.join k)
+          (fixVdims self.vdims (lastAx res.shape)) (some self.valid) (some self.vmap) none
 
 /-- elementwise unary operation that rebuilds the field (`__neg__`, `__abs__`, `real`, …):
 labels, validity and mapping are handed to the constructor; `keepUnit` says whether
@@ -437,7 +440,7 @@ def shlOp (self : CF) : Val → M CF
 def normOp (sq : Rat → Rat) (self : CF) : M CF :=
   mkField self.mesh 1
     (.arr ⟨self.data.shape.dropLast ++ [1], fun idx =>
-      ⟨sq (sumTo (self.data.shape.getLastD 0) fun c => GQ.ofRat (self.data.get (idx.dropLast ++ [c])).normSq).re, 0⟩⟩)
+      ⟨sq (sumTo (lastAx self.data.shape) fun c => GQ.ofRat (self.data.get (idx.dropLast ++ [c])).normSq).re, 0⟩⟩)
     self.kind.realOf none (some self.valid) none self.unit
 
 /-- the second operand of `Field.angle` as a field, and the validity of the result -/
@@ -531,7 +534,7 @@ vdims=self.vdims, vdim_mapping=self.vdim_mapping)`; every failure is `NotImpleme
 def ufuncWrap (self : CF) (res : NDA GQ) (k : Kind) : M CF :=
   if res.shape.dropLast ≠ self.mesh.n then .error .notImpl
   else
-    match mkField self.mesh (res.shape.getLastD 0) (.arr res) k self.vdims none (some self.vmap) none with
+    match mkField self.mesh (lastAx res.shape) (.arr res) k self.vdims none (some self.vmap) none with
     | .error _ => .error .notImpl
     | .ok g => .ok g
 
@@ -539,23 +542,28 @@ def ufuncWrap (self : CF) (res : NDA GQ) (k : Kind) : M CF :=
 def ufunc1 (fn : GQ → GQ) (rk : Kind → Kind) (self : CF) : M CF :=
   ufuncWrap self (self.data.map fn) (rk self.kind)
 
+/-- the field whose mesh and labels a binary ufunc call reuses: the first field input -/
+def firstFld : Val → Val → Option CF
+  | .fld f, _ => some f
+  | _, .fld g => some g
+  | _, _ => none
+
 /-- binary ufunc; `self` is the first field among the inputs -/
 def ufunc2 (fn : GQ → GQ → GQ) (pw : Bool) (l r : Val) : M CF :=
-  match (match l, r with
-    | .fld f, _ => some f
-    | _, .fld g => some g
-    | _, _ => none) with
+  match firstFld l r with
   | none => .error .type
   | some self =>
-    match ufuncInput l, ufuncInput r with
-    | .ok (a, ka), .ok (b, kb) =>
-      if negIntPow pw ka kb b then .error .value
-      else
-        (match npBin fn a b with
-         | .error e => .error e
-         | .ok res => ufuncWrap self res (ka.join kb))
-    | .error e, _ => .error e
-    | _, .error e => .error e
+    match ufuncInput l with
+    | .error e => .error e
+    | .ok (a, ka) =>
+      match ufuncInput r with
+      | .error e => .error e
+      | .ok (b, kb) =>
+        if negIntPow pw ka kb b then .error .value
+        else
+          match npBin fn a b with
+          | .error e => .error e
+          | .ok res => ufuncWrap self res (ka.join kb)
 
 /-! ## Expression trees -/
 
@@ -720,7 +728,7 @@ def cellOf (a : NDA GQ) (i : List Nat) (k : Nat) : List GQ := tab k fun c => a.g
 
 /-- the row NumPy broadcasting pairs with cell `i` for an arbitrary array-like operand -/
 def cellOfB (a : NDA GQ) (i : List Nat) : List GQ :=
-  tab (a.shape.getLastD 0) fun c => a.get (bproj a.shape (i ++ [c]))
+  tab (lastAx a.shape) fun c => a.get (bproj a.shape (i ++ [c]))
 
 /-- broadcasting of two component lists (a list of length 1 is repeated) -/
 def bz (f : GQ → GQ → GQ) (xs ys : List GQ) : List GQ :=
@@ -737,12 +745,68 @@ def normSqCell (xs : List GQ) : Rat := (sumTo xs.length fun c => GQ.ofRat (xs.ge
 def angleCell (sq acos : Rat → Rat) (xs ys : List GQ) : List GQ :=
   [⟨acos (GQ.div (dotCell xs ys) (GQ.mul ⟨sq (normSqCell xs), 0⟩ ⟨sq (normSqCell ys), 0⟩)).re, 0⟩]
 
+/-- the component list NumPy broadcasting pairs with cell `i` for an arbitrary array-like
+(0-d arrays / numbers: the single value) -/
+def opdCell (a : NDA GQ) (i : List Nat) : List GQ := if a.shape = [] then [a.get []] else cellOfB a i
+
+/-- component list of a non-field operand at cell `i` -/
+def rawCell : Opd → List Nat → List GQ
+  | .num z _ _, _ => [z]
+  | .arr a _ _, i => opdCell a i
+
+/-- one binary operation on the component lists of one cell -/
+def binCell (env : Env) (b : BinOp) (xs ys : List GQ) : List GQ :=
+  match b with
+  | .dot => [dotCell xs ys]
+  | .cross => crossCell xs ys
+  | .shl => xs ++ ys
+  | .angle => angleCell env.sq env.acos xs ys
+  | _ => bz (binFn b) xs ys
+
 /-- is the value of the expression a field (syntactically: does it contain a leaf)? -/
 def Expr.isField : Expr → Bool
   | .leaf _ => true
   | .opd _ => false
   | .un _ e => e.isField
   | .bin _ l r => l.isField || r.isField
+
+/-- the leftmost field leaf: the operand whose mesh the result lives on -/
+def Expr.firstLeaf : Expr → Option Nat
+  | .leaf k => some k
+  | .opd _ => none
+  | .un _ e => e.firstLeaf
+  | .bin _ l r =>
+    match l.firstLeaf with
+    | some k => some k
+    | none => r.firstLeaf
+
+/-- all field leaves, left to right -/
+def Expr.leaves : Expr → List Nat
+  | .leaf k => [k]
+  | .opd _ => []
+  | .un _ e => e.leaves
+  | .bin _ l r => l.leaves ++ r.leaves
+
+def isUfuncUn : UnOp → Bool
+  | .unegative | .upositive | .uabsolute | .usquare | .uconjugate | .usign => true
+  | _ => false
+
+def isUfuncBin : BinOp → Bool
+  | .uadd | .usub | .umul | .udiv | .umax | .umin | .upow => true
+  | _ => false
+
+/-- is the sub-expression a NumPy object (it then dispatches to `__array_ufunc__` when it
+stands on the left of a field)? -/
+def npLeft : Expr → Bool
+  | .opd o => isNp o
+  | _ => false
+
+/-- does the expression go through the ufunc protocol anywhere? -/
+def Expr.usesUfunc : Expr → Bool
+  | .leaf _ => false
+  | .opd _ => false
+  | .un u e => isUfuncUn u || e.usesUfunc
+  | .bin b l r => isUfuncBin b || npLeft l || l.usesUfunc || r.usesUfunc
 
 /-- **the same expression evaluated at one cell** under NumPy broadcasting: every field
 leaf contributes the component list of cell `i`, a number a one-element list, an
@@ -752,16 +816,9 @@ def evalCell (env : Env) : Expr → List Nat → List GQ
     match env.fields[k]? with
     | some f => cellOf f.data i f.nvdim
     | none => []
-  | .opd (.num z _ _), _ => [z]
-  | .opd (.arr a _ _), i => if a.shape = [] then [a.get []] else cellOfB a i
+  | .opd o, i => rawCell o i
   | .un u e, i => (evalCell env e i).map (unFn env u)
-  | .bin b l r, i =>
-    match b with
-    | .dot => [dotCell (evalCell env l i) (evalCell env r i)]
-    | .cross => crossCell (evalCell env l i) (evalCell env r i)
-    | .shl => evalCell env l i ++ evalCell env r i
-    | .angle => angleCell env.sq env.acos (evalCell env l i) (evalCell env r i)
-    | _ => bz (binFn b) (evalCell env l i) (evalCell env r i)
+  | .bin b l r, i => binCell env b (evalCell env l i) (evalCell env r i)
 
 /-- validity of cell `i` of the result: AND over the field operands for the operator
 paths; the ufunc protocol does not pass `valid` on (all `True`) -/
@@ -771,16 +828,7 @@ def validCell (env : Env) : Expr → List Nat → Bool
     | some f => f.valid.get i
     | none => true
   | .opd _, _ => true
-  | .un u e, i =>
-    match u with
-    | .unegative | .upositive | .uabsolute | .usquare | .uconjugate | .usign => true
-    | _ => validCell env e i
-  | .bin b l r, i =>
-    match b with
-    | .uadd | .usub | .umul | .udiv | .umax | .umin | .upow => true
-    | _ =>
-      match l with
-      | .opd o => if isNp o then true else validCell env r i
-      | _ => validCell env l i && validCell env r i
+  | .un u e, i => if isUfuncUn u then true else validCell env e i
+  | .bin b l r, i => if isUfuncBin b || npLeft l then true else validCell env l i && validCell env r i
 
 end DFV.C03
